@@ -55,7 +55,7 @@ def selftest(ctx):
             continue
         for b in q["s"]["blocks"]:
             for i in b["ins"]:
-                if i["op"]["k"] in ("assign", "store"):
+                if i["op"]["k"] == "store":
                     i["op"] = {"k": "nop"}
                     touched.add(pi)
     q2 = p + ".mut"
@@ -63,5 +63,6 @@ def selftest(ctx):
         json.dump(d, f)
     r = ctx.tlc_explore("X_C14", q2)
     got = {rj["prog"] for rj in r.rejects if rj["why"] != "completion"}
-    core.log("selftest: killed every assign/store in %d outputs, reports in %d programs" % (len(touched), len(got)))
-    return len(got) >= len(touched) // 2 and len(got) >= 5
+    core.log("selftest: killed every store in %d outputs, reports in %d programs, unexpected %s" % (
+        len(touched), len(got), sorted(got - touched)))
+    return len(got) >= (2 * len(touched)) // 3 and len(got) >= 4 and got <= touched
